@@ -493,6 +493,105 @@ def feature_case(item):
                     rec["fails"].append("not resumed: tlslite %r openssl %r"
                                         % (br2.tl.resumed,
                                            br2.so.session_reused))
+        elif kind == "hrr":
+            # TLS 1.3 where the first key share is for a group the server
+            # does not accept: HelloRetryRequest, then a second ClientHello.
+            role, group, shape, resume = param
+            o_name = {"secp256r1": "prime256v1", "secp384r1": "secp384r1",
+                      "secp521r1": "secp521r1", "x448": "X448"}.get(group)
+            sid = CS.TLS_AES_128_GCM_SHA256
+            vmin = (3, 3) if shape in ("range", "short") else (3, 4)
+            ciph = "ECDHE+AESGCM" if shape == "short" else None
+            alpn = [b"h2", b"http/1.1"] if shape == "sni-alpn" else None
+            host = "server.example.verif" if shape == "sni-alpn" else None
+            chain, key = load_cred("rsa")
+            if role == "tl-server":
+                st = tl_settings((3, 4), sid, minv=vmin, maxv=(3, 4))
+                if group.startswith("ffdhe"):
+                    st.eccCurves, st.dhGroups = ["secp256r1"], [group]
+                    st.keyShares = [group]
+                    st.eccCurves = []
+                else:
+                    st.eccCurves, st.dhGroups = [group], []
+                    st.keyShares = [group]
+                st.ticketKeys = [bytearray(b"\x44" * 32)]
+                st.ticket_count = 1 if resume else 0
+                ctx = mk_ctx(False, (3, 4), ciph, alpn=alpn, minv=vmin,
+                             maxv=(3, 4))
+
+                def conn(session=None):
+                    b = Bridge(False, ctx, server_hostname=host,
+                               session=session)
+                    o = b.handshake(b.tl.handshakeServerAsync(
+                        certChain=chain, privateKey=key, settings=st,
+                        alpn=alpn))
+                    return b, o
+                br, out = conn()
+                ok = out.status == "ok" and br.ossl_done
+                if ok and resume:
+                    br.tl_write(b"x")
+                    br.ossl_read_all(1)
+                    sess = br.so.session
+                    br, out = conn(sess)
+                    ok = out.status == "ok" and br.ossl_done
+                    if ok and not br.so.session_reused:
+                        rec["fails"].append("hrr: openssl client did not "
+                                            "resume across HelloRetryRequest")
+            else:
+                st = tl_settings((3, 4), sid, minv=vmin, maxv=(3, 4))
+                st.eccCurves = ["x25519", group]
+                st.dhGroups = []
+                st.keyShares = ["x25519"]
+                ctx = mk_ctx(True, (3, 4), ciph, "rsa", alpn=alpn,
+                             curve=o_name, minv=vmin, maxv=(3, 4))
+
+                def conn(session=None):
+                    b = Bridge(True, ctx)
+                    o = b.handshake(b.tl.handshakeClientCert(
+                        settings=st, async_=True, session=session,
+                        alpn=alpn, serverName=host))
+                    return b, o
+                br, out = conn()
+                ok = out.status == "ok" and br.ossl_done
+                if ok and resume:
+                    br.ossl_write(b"y")
+                    br.tl_read_all(1)
+                    sess = br.tl.session
+                    br, out = conn(sess)
+                    ok = out.status == "ok" and br.ossl_done
+                    if ok and not (br.tl.resumed and br.so.session_reused):
+                        rec["fails"].append("hrr: not resumed: tlslite %r "
+                                            "openssl %r" % (
+                                                br.tl.resumed,
+                                                br.so.session_reused))
+            hrr_seen = bytes.fromhex(
+                "cf21ad74e59a6111be1d8c021e65b891"
+                "c2a211167abb8c5e079e09e2c8a8339c") in (
+                    bytes(br.w.s2c.log) + bytes(br.w.c2s.log))
+            rec["sig"] = (ok, tuple(br.tl.version) if ok else None, hrr_seen)
+            if ok and not hrr_seen:
+                rec["fails"].append("harness: no HelloRetryRequest on the "
+                                    "wire for %s" % group)
+            if not ok:
+                rec["fails"].append("hrr to %s (%s): tlslite %r openssl %r"
+                                    % (group, shape, out, br.ossl_err))
+            else:
+                if tuple(br.tl.version) != (3, 4) or \
+                        br.so.version() != "TLSv1.3":
+                    rec["fails"].append("hrr: versions %r / %r" % (
+                        br.tl.version, br.so.version()))
+                data = bytes(range(256)) * 3
+                if role == "tl-server":
+                    br.tl_write(data)
+                    got, err = br.ossl_read_all(len(data))
+                else:
+                    err = br.ossl_write(data)
+                    got, err2 = br.tl_read_all(len(data))
+                    err = err or err2
+                if got != data or err:
+                    rec["fails"].append("hrr: data after retry differs (%d "
+                                        "of %d bytes, %r)" % (len(got),
+                                                              len(data), err))
     except ssl.SSLError as e:
         rec["sig"] = ("openssl-config-error", str(e)[:80])
     return rec
@@ -585,6 +684,12 @@ def run(res, tier, seed):
             fitems.append(("resume", (role, v, "ticket"), seed))
             if v == (3, 3):
                 fitems.append(("resume", (role, v, "id"), seed))
+        for group in ("secp256r1", "secp384r1", "secp521r1", "x448") + \
+                ((("ffdhe2048", "ffdhe3072") if role == "tl-server" else ())):
+            for shape in ("tls13", "range", "short", "sni-alpn"):
+                for resume in (False, True):
+                    fitems.append(("hrr", (role, group, shape, resume),
+                                   seed))
         for v in ((3, 1), (3, 2)):
             fitems.append(("clientauth", (role, v, "rsa"), seed))
         vs = [(3, 1), (3, 2), (3, 3), (3, 4)]
